@@ -13,15 +13,15 @@ from . import ctx as C
 from .values import SymReal, term_of, SymBool
 
 R = z3.RealSort()
-_sin = z3.Function("sin", R, R)
-_cos = z3.Function("cos", R, R)
-_tan = z3.Function("tan", R, R)
-_atan2 = z3.Function("atan2", R, R, R)
-_sqrt = z3.Function("sqrt", R, R)
-_hypot = z3.Function("hypot", R, R, R)
+_sin = z3.Function("sx_sin", R, R)
+_cos = z3.Function("sx_cos", R, R)
+_tan = z3.Function("sx_tan", R, R)
+_atan2 = z3.Function("sx_atan2", R, R, R)
+_sqrt = z3.Function("sx_sqrt", R, R)
+_hypot = z3.Function("sx_hypot", R, R, R)
 _round = {}  # ndigits -> Function
-_roundint = z3.Function("round_int", R, R)
-_ceil = z3.Function("ceil", R, R)
+_roundint = z3.Function("sx_round_int", R, R)
+_ceil = z3.Function("sx_ceil", R, R)
 
 _pf = fractions.Fraction(_m.pi)
 PI = z3.RealVal(f"{_pf.numerator}/{_pf.denominator}")  # the float math.pi, exactly
@@ -193,7 +193,7 @@ def sym_round(x, ndigits=None):
     else:
         f = _round.get(ndigits)
         if f is None:
-            f = _round[ndigits] = z3.Function(f"round_{ndigits}".replace("-", "m"), R, R)
+            f = _round[ndigits] = z3.Function(f"sx_round_{ndigits}".replace("-", "m"), R, R)
         half = z3.RealVal(f"1/{2 * 10 ** ndigits}" if ndigits >= 0 else f"{10 ** (-ndigits)}/2")
     t = z3.simplify(x.t)
     if z3.is_rational_value(t) or z3.is_int_value(t):
@@ -211,7 +211,7 @@ def sym_round(x, ndigits=None):
 def round_fn(ndigits):
     f = _round.get(ndigits)
     if f is None:
-        f = _round[ndigits] = z3.Function(f"round_{ndigits}".replace("-", "m"), R, R)
+        f = _round[ndigits] = z3.Function(f"sx_round_{ndigits}".replace("-", "m"), R, R)
     return f
 
 
